@@ -191,21 +191,22 @@ Definition assoc_env (ids : list cid) (vals : list val) (c : cid) : val :=
      end) ids vals.
 
 (* ParsedCommand.evaluate: numpy arithmetic on data[ref, view]; a constant is expanded to the full shape, then viewed *)
+Definition arg_at (idx : list Z) (x : value) : val :=
+  match x with VArr a => aget a idx | VScalar s => s | VErr _ => None end.
 Definition compute_parsed (e : dexpr) (leaf : cid -> value) (full : list Z) (v : view) : value :=
   let ids := dedup (leaves e) in
   let args := map leaf ids in
+  let point (idx : list Z) := eval_expr e (assoc_env ids (map (arg_at idx) args)) in
   match first_err args with
   | Some er => VErr er
   | None =>
     match first_arr args with
-    | None => (* no reference: scalar result -> ones(shape) * result, then [view] *)
-      match apply_view v (mkarr (fresh_axes full) (fun _ => eval_expr e (fun _ => None))) with
+    | None => (* no array among the references: scalar result -> ones(shape) * result, then [view] *)
+      match apply_view v (mkarr (fresh_axes full) (fun _ => point [])) with
       | Some a => VArr a
       | None => VErr IndexError
       end
-    | Some a0 =>
-      VArr (mkarr (fresh_axes (ashape a0))
-                  (fun idx => eval_expr e (assoc_env ids (map (fun x => match x with VArr a => aget a idx | VScalar s => s | VErr _ => None end) args))))
+    | Some a0 => VArr (mkarr (fresh_axes (ashape a0)) point)
     end
   end.
 
@@ -216,28 +217,37 @@ Fixpoint common_all (l : list (list Z)) : option (list Z) :=
   | [s] => Some s
   | s :: t => match common_all t with Some r => common_shape s r | None => None end
   end.
+Definition the_arr (x : value) : option arr := match x with VArr a => Some a | _ => None end.
+Fixpoint all_some {A} (l : list (option A)) : option (list A) :=
+  match l with
+  | [] => Some []
+  | Some x :: t => match all_some t with Some r => Some (x :: r) | None => None end
+  | None :: _ => None
+  end.
 Definition compute_func (ravel : bool) (e : dexpr) (leaf : cid -> value) : value :=
   let ids := dedup (leaves e) in
   let args := map leaf ids in
   match first_err args with
   | Some er => VErr er
   | None =>
-    match args with
-    | VArr a0 :: _ =>
+    match all_some (map the_arr args) with
+    | Some (a0 :: rest) =>
       let original_shape := ashape a0 in
-      let us := map (fun x => match x with VArr a => unbroadcast a | _ => mkarr [] (fun _ => None) end) args in
+      let us := map unbroadcast (a0 :: rest) in
       match common_all (map ashape us) with
       | None => VErr BroadcastError
       | Some cs =>
-        let bs := map (fun u => broadcast_to u cs) us in
-        if existsb (fun b => match b with None => true | Some _ => false end) bs then VErr BroadcastError else
-        let point (idx : list Z) := eval_expr e (assoc_env ids (map (fun b => match b with Some a => aget a idx | None => None end) bs)) in
-        (* the function may return a ravelled array ([ravel]); the code then sets result.shape = args[0].shape, which for a
-           row-major array with the same number of elements is the identity on the element order: invisible here *)
-        let res := mkarr (fresh_axes cs) point in
-        match broadcast_to res original_shape with Some x => VArr x | None => VErr BroadcastError end
+        match all_some (map (fun u => broadcast_to u cs) us) with
+        | None => VErr BroadcastError
+        | Some bs =>
+          let point (idx : list Z) := eval_expr e (assoc_env ids (map (fun b => aget b idx) bs)) in
+          (* the function may return a ravelled array ([ravel]); the code then sets result.shape = args[0].shape, which for a
+             row-major array with the same number of elements is the identity on the element order: invisible here *)
+          let res := mkarr (fresh_axes cs) point in
+          match broadcast_to res original_shape with Some x => VArr x | None => VErr BroadcastError end
+        end
       end
-    | _ => VErr IndexError      (* no inputs / scalar first input: outside the domain *)
+    | _ => VErr IndexError      (* no inputs, or an input that is a bare scalar: outside the domain *)
     end
   end.
 
